@@ -448,6 +448,27 @@ func (g *dg) tCErr() []gen.Stmt {
 	return out
 }
 
+// tPool: literals that meet again in the constant pool the session carries over
+// (equal values of different types, 0.0 and -0.0, equal strings).
+func (g *dg) tPool() []gen.Stmt {
+	a, b, c, d := g.n("ka"), g.n("kb"), g.n("kc"), g.n("kd")
+	lits := []gen.Expr{gen.FloatLit(0), &gen.Unary{Op: "-", X: gen.FloatLit(0)}, il(0), il(1), gen.FloatLit(1),
+		gen.BoolLit(true), gen.BoolLit(false), &gen.Lit{Kind: gen.LChar, I: 1}, &gen.Lit{Kind: gen.LUint, U: 1},
+		&gen.Lit{Kind: gen.LUint, U: 0}, sl("1"), sl(""), gen.UndefLit(), bin("*", gen.FloatLit(0), &gen.Unary{Op: "-", X: gen.FloatLit(1)})}
+	pickLit := func(label string) gen.Expr { return lits[g.u(len(lits), label)] }
+	out := []gen.Stmt{}
+	if g.chance(50, "po-const") {
+		out = append(out, constdecl(a, pickLit("po-a")))
+	} else {
+		out = append(out, def(a, pickLit("po-a")))
+	}
+	out = append(out, def(b, pickLit("po-b")))
+	out = append(out, def(c, arr(pickLit("po-c1"), pickLit("po-c2"))))
+	out = append(out, def(d, fn(nil, ret(arr(pickLit("po-d1"), id(a), pickLit("po-d2"))))))
+	out = append(out, es(arr(id(a), id(b), id(c), calln(d), bin("/", gen.FloatLit(1), pickLit("po-div")))))
+	return out
+}
+
 type tmpl struct {
 	name string
 	w    int
@@ -466,6 +487,7 @@ var templates = []tmpl{
 	{"destruct", 2, (*dg).tDestruct},
 	{"print", 2, (*dg).tPrint},
 	{"last", 2, (*dg).tLast},
+	{"pool", 4, (*dg).tPool},
 	{"fail", 3, (*dg).tFail},
 	{"cerr", 2, (*dg).tCErr},
 }
